@@ -278,7 +278,8 @@ def gen_learn(r, n_cases):
             outs = sorted({o for _, os_ in evs for o in os_} | {''})[:3] + ['PRIOR']
             cues = sorted({c for cs, _ in evs for c in cs})[:3] + ['PRIORCUE']
             vals = {(o, c): '%d/%d' % (r.randint(-8, 8), r.choice([1, 2, 4])) for o in outs for c in cues}
-            base['init_lw'] = {'outcomes': outs, 'cues': cues, 'vals': [vals[(o, c)] for o in outs for c in cues]}
+            base['init_lw'] = {'outcomes': outs, 'cues': cues, 'vals': [vals[(o, c)] for o in outs for c in cues],
+                               'layout': r.choice(['c', 'f', 'transposed', 'slice'])}
             base['init_cells'] = [[o, c, v] for (o, c), v in sorted(vals.items())]
         out.append(base)
     return out
